@@ -5,5 +5,9 @@
 (*   PassLoop_MC_abs*.cfg   6809 / 68HC11 / 6502: direct vs extended (2/3 bytes, operand < 256)        *)
 (*   PassLoop_MC_86*.cfg    8086: short / near JMP (2/3 bytes, PC-relative)                            *)
 (*   *_pinned.cfg           Fixed = FALSE: TLC must report the livelock (PROPERTY Termination)         *)
+(*   PassLoop_MC_sect_accident.cfg  sections: TLC must refute FixpointAlsoWhenIndefinite (the accident the *)
+(*                          manual describes under FORWARD; C01 is stated for ScopeSafe programs)          *)
+(* The alphabets with SECTION / ENDSECTION / FORWARD / name[section] are checked and exported in one run  *)
+(* each (PassLoop_Gen_sectabs*.cfg, _nestabs*.cfg, _sect68k.cfg, _sect86.cfg, _sectabsU.cfg).             *)
 EXTENDS PassLoop
 =============================================================================
